@@ -37,7 +37,7 @@ TNext == \/ Ev("WLoad") /\ WLoad(P) /\ PostOK(Tr[l])
          \/ Ev("Probe") /\ Probe /\ PostOK(Tr[l])
          \/ Ev("Drain") /\ UNCHANGED vars /\ PostOK(Tr[l])    \* marker: end of the bounded gated drain
          \/ /\ Ev("Reset") /\ st' = S0 /\ dl' = "none" /\ pc' = PC0 /\ tmp' = [p \in Procs |-> S0]
-            /\ left' = [w \in Writers |-> Rounds - 1] /\ probe' = "none"
+            /\ left' = [w \in Writers |-> Rounds - 1] /\ probe' = "none" /\ hit' = {} /\ spur' = FALSE
             /\ PostOK(Tr[l])
 TSpec == TInit /\ [][TNext]_tv
 Accepted == IF TLCGet("stats").diameter = Len(Tr) THEN TRUE
